@@ -134,6 +134,10 @@ type pathCtx struct {
 	cur             *frame               // the frame in which helper-local values are being read (nil: the kernel)
 	symIdx          map[symKey]int
 	syms            []symKey
+	// reads of the kernel's input series made inside an inlined helper that is handed the series and the time
+	// index (`incomingSedimentMass(upstreamMass, lateralMass, reachLocalMass, idx, Δt)`)
+	inSeries map[ssa.Value]int
+	atIdxArg func(a ssa.Value, at ssa.Instruction) bool
 }
 
 // frame: one call of a scalar helper, followed along one acyclic path entry → return.
@@ -198,7 +202,10 @@ func scalarHelperPaths(call *ssa.Call) [][]*ssa.BasicBlock {
 	helperPathCache[f] = nil
 	for i := 0; i < f.Signature.Params().Len(); i++ {
 		if _, ok := f.Signature.Params().At(i).Type().Underlying().(*types.Basic); !ok {
-			return nil
+			// a series or an index vector that the helper only reads elements of
+			if i >= len(f.Params) || !(isNDType(f.Params[i].Type()) || isIntVec(f.Params[i].Type())) || !onlyElementReads(f.Params[i]) {
+				return nil
+			}
 		}
 	}
 	if f.Signature.Results().Len() == 0 || len(findLoops(f)) > 0 || f.Recover != nil {
@@ -234,6 +241,37 @@ func scalarHelperPaths(call *ssa.Call) [][]*ssa.BasicBlock {
 	}
 	helperPathCache[f] = out
 	return out
+}
+
+// onlyElementReads: the array (or index-vector) parameter is used for nothing but x.Get(idx) / x.Get1(i) reads.
+func onlyElementReads(prm *ssa.Parameter) bool {
+	for _, ref := range refs(prm) {
+		switch x := ref.(type) {
+		case *ssa.DebugRef:
+		case ssa.CallInstruction:
+			nm := callName(x.Common())
+			if nm != "Get" && nm != "Get1" {
+				return false
+			}
+			if x.Common().IsInvoke() && x.Common().Value == ssa.Value(prm) {
+				continue
+			}
+			isArg0 := len(callArgs(x.Common())) > 0 && callArgs(x.Common())[0] == ssa.Value(prm)
+			if !isArg0 && recvOf(x.Common()) != ssa.Value(prm) {
+				return false
+			}
+		case *ssa.ChangeInterface, *ssa.MakeInterface:
+			for _, r2 := range refs(x.(ssa.Value)) {
+				c, ok := r2.(ssa.CallInstruction)
+				if !ok || callName(c.Common()) != "Get" && callName(c.Common()) != "Get1" {
+					return false
+				}
+			}
+		default:
+			return false
+		}
+	}
+	return true
 }
 
 // scalarOrRecordOfScalars: a basic type, or a struct all of whose fields are basic (`usleDailyLoads{fineKg, coarseKg,
@@ -633,6 +671,30 @@ func (pc *pathCtx) ex(v ssa.Value, depth int) poly {
 			}
 		}
 	case *ssa.Call:
+		if fr := pc.cur; fr != nil && pc.inSeries != nil && x.Parent() == fr.fn {
+			if nm := callName(x.Common()); (nm == "Get" || nm == "Get1") && len(callArgs(x.Common())) > 0 {
+				rp, ok1 := origin1OrSelf(recvOf(x.Common())).(*ssa.Parameter)
+				ip, ok2 := origin1OrSelf(callArgs(x.Common())[0]).(*ssa.Parameter)
+				if ok1 && ok2 && rp.Parent() == fr.fn && ip.Parent() == fr.fn {
+					var ra, ia ssa.Value
+					for i, q := range fr.fn.Params {
+						if i < len(fr.call.Common().Args) {
+							if q == rp {
+								ra = fr.call.Common().Args[i]
+							}
+							if q == ip {
+								ia = fr.call.Common().Args[i]
+							}
+						}
+					}
+					if ra != nil && ia != nil {
+						if k, ok := pc.inSeries[origin1OrSelf(stripConv(ra))]; ok && pc.atIdxArg != nil && pc.atIdxArg(ia, fr.call) {
+							return poly{fmt.Sprintf("in%d", k): 1}
+						}
+					}
+				}
+			}
+		}
 		if inner, ok := isClampCall(x); ok {
 			// a clamp against a constant: decided for the case in which the clamp does not bind
 			return pc.ex(inner, depth+1)
@@ -1191,6 +1253,17 @@ func checkMassBalance(p *Program, r *Report) {
 		nBal := 0
 		newCtx := func(path []*ssa.BasicBlock, frames map[*ssa.Call]*frame) *pathCtx {
 			pc := &pathCtx{pos: map[*ssa.BasicBlock]int{}, path: path, stateOf: stateOf, kernel: k, frames: frames}
+			pc.inSeries = inIdx
+			pc.atIdxArg = func(a ssa.Value, at ssa.Instruction) bool {
+				if ind == nil {
+					return false
+				}
+				if isIntVec(a.Type()) {
+					vals, _, unk := vecElemAt(eff, origin1(a), 0, at)
+					return unk == "" && len(vals) == 1 && origin1(vals[0]) == ssa.Value(ind)
+				}
+				return origin1(a) == ssa.Value(ind)
+			}
 			pc.names = map[ssa.Value]string{}
 			for i, b := range path {
 				pc.pos[b] = i
